@@ -189,6 +189,16 @@ def scenarios(rng: random.Random, tier: str):
         else:              # same hop-by-hop value on another connection, different end-to-end id, while blocked
             line = pre + f" | req 0 {nodegen.ccr(0, 0, 'node.local')} 2 rx_1_{nodegen.cca(hb0, 4711, 'peer3.x')}"
         out.append(line)
+    # an application without peers of its own sends through the realm's default peer: the answer (in time, late, duplicated)
+    # is its answer and nobody else's
+    pre = CFG + " | start | acc | rx 0 " + nodegen.cer("peer1.x", "4+3", n(), n(), extra=",acct=3") + " | acc | rx 1 " + nodegen.cer("peer2.x", "4", n(), n())
+    hb0, e = 2001, 268435464
+    rq = nodegen.ccr(0, 0, "node.local", app=3)
+    an = nodegen.cca(hb0, e, "peer1.x")
+    out.append(pre + f" | req 2 {rq} 5 rx_0_{an}")
+    out.append(pre + f" | req 2 {rq} 1 | rx 0 {an}")
+    out.append(pre + f" | req 2 {rq} 5 rx_0_{an} | rx 0 {an} | rx 0 {an}")
+    out.append(pre + f" | req 2 {rq} 1 | req 0 {nodegen.ccr(0, 0, 'node.local')} 1 | rx 0 {an}")
     # the connection's hop-by-hop generator at and just below its maximum: three requests across the wrap
     for start in (4294967295, 4294967294, 4294967293):
         pre = CFG + " | start | acc | rx 0 " + nodegen.cer("peer2.x", "4", n(), n()) + f" | sethbh 0 {start}"
